@@ -99,6 +99,42 @@ def names_from_conn(c):
     return out
 
 
+# the mapped classes each current feature of the property goes through when it is used through the API
+# (`Aggregator.from_database(...).fits` loads `Fit` and, through it, rows of the polymorphic `Object` table); the
+# tables/columns a feature needs are then read from the classes' mappers (joined inheritance included). The
+# choice of classes is validated on every run: harness/c19.py uses every feature on real files, migrated and
+# not, and compares success with the model's `usable`.
+FEATURE_BASE = ("Fit", "Object")
+FEATURE_CLASSES = {
+    "naming": (),
+    "max_log_likelihood": (),
+    "named_instance": ("NamedInstance", "Instance"),
+    "json": ("JSON",),
+    "array": ("Array",),
+    "hdu": ("HDU",),
+    "latent_samples": ("Array",),
+}
+
+
+def feature_needs():
+    """[(feature, [(table, column)])]: what the mapped classes of each feature select / insert"""
+    import sqlalchemy as sa
+    from autofit import database as db
+
+    def cols(clsname):
+        cls = getattr(db, clsname, None) or getattr(db.model, clsname)
+        m = sa.inspect(cls)
+        return {(c.table.name, c.name) for t in m.tables for c in t.columns} | {(c.table.name, c.name) for c in m.columns}
+
+    out = []
+    for f, classes in FEATURE_CLASSES.items():
+        need = set()
+        for c in FEATURE_BASE + tuple(classes):
+            need |= cols(c)
+        out.append((f, sorted(need)))
+    return out
+
+
 def main():
     from autofit.database import Base
     from autofit.database.migration.steps import migrator
@@ -141,6 +177,10 @@ def main():
     o.append("/-- every historic database shape the harness builds -/")
     o.append("def variants : List (String × Nat × Schema) := [")
     o.append(",\n".join(f"  ({q(n)}, {variant_rev(n, history)}, {lean_schema(s, '  ')})" for n, s in vs) + "]")
+    o.append("")
+    o.append("/-- tables/columns each current feature needs (the mappers of the classes it goes through) -/")
+    o.append("def features : List (String × List (String × String)) := [")
+    o.append(",\n".join(f"  ({q(f)}, {lst(['(' + q(t) + ', ' + q(c) + ')' for t, c in need])})" for f, need in feature_needs()) + "]")
     o.append("")
     o.append("end AF.Migrate.Generated")
     text = "\n".join(o) + "\n"
